@@ -328,10 +328,10 @@ theorem parseMediaType_cdParams (l : List (Bytes × Bytes)) (hg : GoodParams l) 
   · apply dupConflict_nodup
     simpa [List.map_map, Function.comp_def] using hg.2
 
-theorem parseMediaType_field (k : Bytes) (h : ∀ c ∈ k, (c == 13) = false ∧ (c == 10) = false) :
-    parseMediaType (fieldDisposition k) = .ok (formData, [(nameKey, k)]) := by
-  have hshape : fieldDisposition k = formData ++ ([59, 32] ++ nameKey ++ [61, 34] ++ escapeQuotes k ++ [34] ++ []) := by
-    simp [fieldDisposition]
+theorem parseMediaType_rawField (k : Bytes) (h : ∀ c ∈ k, (c == 13) = false ∧ (c == 10) = false) :
+    parseMediaType (rawFieldDisposition k) = .ok (formData, [(nameKey, k)]) := by
+  have hshape : rawFieldDisposition k = formData ++ ([59, 32] ++ nameKey ++ [61, 34] ++ escapeQuotes k ++ [34] ++ []) := by
+    simp [rawFieldDisposition]
   rw [hshape]
   apply parseMediaType_formData
   · right
